@@ -394,6 +394,11 @@ func ruleAscii85Room(w *World, r *Report, rule string) {
 				continue
 			}
 			dst, src := call.Call.Args[0], call.Call.Args[1]
+			if cycleThrough(call.Block()) != nil {
+				// decoding a piece at a time is right only if the next piece starts where Decode stopped
+				r.Check(false, rule, key, w.Pos(call.Pos()), "", "ascii85.Decode is applied to one window of the text after the other and the number of consumed characters is discarded: groups are not of one length ('z' stands for a whole group of four zero bytes in ONE character), so a fixed window cuts groups apart and every byte after the first 'z' decodes to something else — no error, different bytes")
+				continue
+			}
 			okRoom := false
 			why := "destination buffer size is not a linear function of len(source)"
 			for _, root := range provenance(dst, provOpts{}) {
